@@ -23,7 +23,7 @@ func run(t *testing.T, prop string, x any, cfg simrt.Config) *eng.Outcome {
 	res, obs := execScn(t, sc, cfg)
 	var mod *Model
 	switch {
-	case prop == "C05" || prop == "C11" || prop == "C20", (prop == "C06" || prop == "C09" || prop == "C17" || prop == "C01") && (sc.Ctx.Kind == "cancel" || sc.Ctx.Kind == "deadline") && hasBatch(sc):
+	case prop == "C05" || prop == "C11" || prop == "C20", (prop == "C06" || prop == "C08" || prop == "C09" || prop == "C17" || prop == "C01") && (sc.Ctx.Kind == "cancel" || sc.Ctx.Kind == "deadline") && hasBatch(sc):
 		// these oracles relate the log to the uncancelled run
 		mod = runModelUncancelled(sc)
 	default:
